@@ -10,15 +10,29 @@
 (*   R2C(x) = mixed[::2]                    ceil(N/2) samples              *)
 (* plus the dtype rule, the refusal of complex input, N = 0, and the       *)
 (* application along one axis of an array.                                 *)
-(* Declarative clauses (the property) are stated below and model-checked   *)
-(* against the operational definition by MC_R2C.                           *)
+(* The declarative clauses (the property) are relations between input and  *)
+(* output; MC_R2C checks that the operational definition satisfies them.   *)
 (***************************************************************************)
-EXTENDS Fix, Sequences
+EXTENDS Fix, Sequences, TLC
 
 CONSTANT MaxTW              \* largest transform length (twiddle table)
 
-\* twiddle factors exp(2 pi i j / N), computed once per TLC run
-TW == [N \in 1..MaxTW |-> Twiddles(N)]
+\* TLC evaluates [i \in S |-> e] lazily (e is re-evaluated at every application);
+\* TLCEval makes the tables below strict, which keeps the transform O(N^2).
+Strict(f) == TLCEval(f)
+\* twiddle factors exp(2 pi i j / N).  TLC does not cache definitions that
+\* depend on RECURSIVE operators (CosSin), so the table is kept in a variable:
+\* a module that EXTENDS this one sets  tw = TwTable  initially and leaves it
+\* unchanged; the table is then computed once per TLC run.
+VARIABLE tw
+TwTable == Strict([N \in 1..MaxTW |-> Strict(Twiddles(N))])
+TW == tw
+\* Fix!DftW with strict intermediate tables: sum_n x[n] W[sgn k n mod N].
+\* Terms with x[n] = 0 add nothing; a real x[n] needs two products, not four.
+Term(z, w) == IF IsZero(z.im) THEN (IF IsZero(z.re) THEN CZero ELSE CMulReal(w, z.re)) ELSE CMul(z, w)
+SDft(x, sgn, W) ==
+  LET N == Len(x)
+  IN Strict([k \in 1..N |-> CSum(Strict([n \in 1..N |-> Term(x[n], W[(sgn * (k - 1) * (n - 1)) % N])]))])
 
 (* ---- operational ---- *)
 \* h[0] = 1; h[1 : N//2] = 2; if N > 1: h[N//2] = 2 if N odd else 1; else 0
@@ -27,24 +41,25 @@ HWeight(N, k) ==
   ELSE IF k < N \div 2 THEN 2
   ELSE IF k = N \div 2 THEN (IF N % 2 = 1 THEN 2 ELSE 1)
   ELSE 0
-Cx(x) == [i \in 1..Len(x) |-> C(x[i], FZero)]
-Spectrum(x) == DftW(Cx(x), -1, TW[Len(x)])
-Analytic(x) ==
-  LET N == Len(x)
-      X == Spectrum(x)
-      Y == [k \in 1..N |-> CScaleInt(X[k], HWeight(N, k - 1))]
-      y == DftW(Y, 1, TW[N])
-  IN [n \in 1..N |-> CDivSmall(y[n], N)]
-\* z * (-i)^n, exactly
+Cx(x) == Strict([i \in 1..Len(x) |-> C(x[i], FZero)])
+Spectrum(x) == IF Len(x) = 0 THEN <<>> ELSE SDft(Cx(x), -1, TW[Len(x)])           \* fft(z)
+AnalyticOf(X) ==                                                                     \* ifft(fft(z) * h)
+  LET N == Len(X)
+      Y == Strict([k \in 1..N |-> CScaleInt(X[k], HWeight(N, k - 1))])
+      y == SDft(Y, 1, TW[N])
+  IN IF N = 0 THEN <<>> ELSE Strict([n \in 1..N |-> CDivSmall(y[n], N)])
+Analytic(x) == AnalyticOf(Spectrum(x))
+\* z * exp(-i pi n / 2) = z * (-i)^n, exactly
 MulMinusIPow(z, n) ==
   CASE n % 4 = 0 -> z
     [] n % 4 = 1 -> C(z.im, Neg(z.re))
     [] n % 4 = 2 -> CNeg(z)
     [] n % 4 = 3 -> C(Neg(z.im), z.re)
-Mixed(x) == LET a == Analytic(x) IN [n \in 1..Len(x) |-> MulMinusIPow(a[n], n - 1)]
+MixedOf(a) == Strict([n \in 1..Len(a) |-> MulMinusIPow(a[n], n - 1)])
 OutLen(N) == (N + 1) \div 2
-R2C(x) == IF Len(x) = 0 THEN <<>>
-          ELSE LET m == Mixed(x) IN [j \in 1..OutLen(Len(x)) |-> m[2 * j - 1]]
+Decimate(m) == Strict([j \in 1..OutLen(Len(m)) |-> m[2 * j - 1]])                  \* [::2]
+R2COf(a) == Decimate(MixedOf(a))
+R2C(x) == IF Len(x) = 0 THEN <<>> ELSE R2COf(Analytic(x))
 
 RealDtypes == {"bool", "int8", "int16", "int32", "int64", "uint8", "uint16", "uint32", "uint64",
                "float16", "float32", "float64", "longdouble"}
@@ -65,52 +80,49 @@ R2CAxis(shape, flat, ax) ==
   LET N == shape[ax]
       oshape == [shape EXCEPT ![ax] = OutLen(N)]
       rshape == [shape EXCEPT ![ax] = 1]
-      LaneOf(idx) == [n \in 1..N |-> flat[1 + Ravel(shape, [idx EXCEPT ![ax] = n - 1])]]
-      lanes == [q \in 0..(Prod(rshape) - 1) |-> R2C(LaneOf(Unravel(rshape, q)))]
+      LaneOf(idx) == Strict([n \in 1..N |-> flat[1 + Ravel(shape, [idx EXCEPT ![ax] = n - 1])]])
+      lanes == Strict([q \in 0..(Prod(rshape) - 1) |-> R2C(LaneOf(Unravel(rshape, q)))])
   IN [shape |-> oshape,
-      flat |-> [p \in 1..Prod(oshape) |->
+      flat |-> Strict([p \in 1..Prod(oshape) |->
                   LET idx == Unravel(oshape, p - 1)
-                  IN lanes[Ravel(rshape, [idx EXCEPT ![ax] = 0])][idx[ax] + 1]]]
+                  IN lanes[Ravel(rshape, [idx EXCEPT ![ax] = 0])][idx[ax] + 1]])]
 
-(* ---- declarative clauses ---- *)
+(* ---- declarative clauses: relations between input x and output y ---- *)
 Tol == Pow2(10)                       \* 2^-50 in units of 2^-60
 Sgn(m) == IF m % 2 = 0 THEN 1 ELSE -1
 \* the output has ceil(N/2) samples
-LenClause(x) == Len(R2C(x)) = (Len(x) + 1) \div 2 /\ (Len(x) = 0 => R2C(x) = <<>>)
+LenRel(x, y) == Len(y) = (Len(x) + 1) \div 2
 \* (-1)^m Re(out[m]) = x[2m]
-RealPartClause(x) ==
-  LET y == R2C(x) IN \A m \in 0..(Len(y) - 1) : FClose(MulInt(y[m + 1].re, Sgn(m)), x[2 * m + 1], Tol)
-\* analytic signal: real part equal to the input, negative frequencies removed,
-\* non-negative frequencies kept (DC, Nyquist) or doubled
-AnalyticClause(x) ==
-  LET N == Len(x)  a == Analytic(x)  S == DftW(a, -1, TW[N])  X == Spectrum(x)
-  IN N > 0 =>
+RealPartRel(x, y) == \A m \in 0..(Len(y) - 1) : FClose(MulInt(y[m + 1].re, Sgn(m)), x[2 * m + 1], Tol)
+\* a is the analytic signal of x: real part equal to the input; its spectrum S has no
+\* negative frequencies, keeps DC and Nyquist and doubles the positive frequencies of X = DFT(x)
+AnalyticRel(x, a, S, X) ==
+  LET N == Len(x)
+  IN /\ Len(a) = N
      /\ \A n \in 1..N : FClose(a[n].re, x[n], Tol)
      /\ \A k \in 0..(N - 1) :
           LET tol == MulInt(Tol, N)
-          IN IF 2 * k > N THEN CClose(S[k + 1], CZero, tol)                       \* negative frequency
-             ELSE IF k = 0 \/ 2 * k = N THEN CClose(S[k + 1], X[k + 1], tol)      \* DC / Nyquist
+          IN IF 2 * k > N THEN CClose(S[k + 1], CZero, tol)
+             ELSE IF k = 0 \/ 2 * k = N THEN CClose(S[k + 1], X[k + 1], tol)
              ELSE CClose(S[k + 1], CScaleInt(X[k + 1], 2), tol)
-\* linear: R2C(sum_j c_j e_j) = sum_j c_j R2C(e_j)   (c: integers)
-Unit(N, j) == [i \in 1..N |-> IF i = j THEN FOne ELSE FZero]
+\* the output is the analytic signal mixed down by a quarter of the sampling rate, every second sample
+MixRel(a, y) == \A m \in 0..(Len(y) - 1) : y[m + 1] = CScaleInt(a[2 * m + 1], Sgn(m))
+\* linear: R2C(sum_j c_j e_j) = sum_j c_j R2C(e_j)   (c: integers, bas[j] = R2C(Unit(N, j)))
+Unit(N, j) == Strict([i \in 1..N |-> IF i = j THEN FOne ELSE FZero])
 RECURSIVE LinCombR(_, _, _, _)
 LinCombR(c, bas, m, j) == IF j = 0 THEN CZero ELSE CAdd(CScaleInt(bas[j][m], c[j]), LinCombR(c, bas, m, j - 1))
-LinearClause(c, bas) ==     \* c: integer coefficients, bas[j] = R2C(Unit(N, j))
-  LET N == Len(c)  y == R2C([i \in 1..N |-> FFromInt(c[i])])
-  IN \A m \in 1..Len(y) : CClose(y[m], LinCombR(c, bas, m, N), MulInt(Tol, N + 1))
-AddClause(x1, x2, k) ==     \* R2C(x1 + k x2) = R2C(x1) + k R2C(x2)
-  LET y == R2C([i \in 1..Len(x1) |-> Add(x1[i], MulInt(x2[i], k))])  y1 == R2C(x1)  y2 == R2C(x2)
-  IN \A m \in 1..Len(y) : CClose(y[m], CAdd(y1[m], CScaleInt(y2[m], k)), MulInt(Tol, 1 + (IF k < 0 THEN -k ELSE k)))
+LinearRel(c, y, bas) == \A m \in 1..Len(y) : CClose(y[m], LinCombR(c, bas, m, Len(c)), MulInt(Tol, Len(c) + 1))
+\* y = R2C(x1 + k x2), y1 = R2C(x1), y2 = R2C(x2)
+AddRel(y, y1, y2, k) ==
+  \A m \in 1..Len(y) : CClose(y[m], CAdd(y1[m], CScaleInt(y2[m], k)), MulInt(Tol, 1 + (IF k < 0 THEN -k ELSE k)))
 \* a real tone at w cycles per N samples, phase ph (cycles), becomes the complex tone at w - N/4:
 \*   cos(2 pi (w n / N + ph))  ->  exp(2 pi i ((w - N/4) * 2m / N + ph)),   0 < w < N/2;
 \* at w = 0 and w = N/2 (its own mirror image) the amplitude is the real number cos(2 pi ph).
-ToneIn(N, w, ph) == [n \in 1..N |-> CosSin(RAdd(RQ(w * (n - 1), N), ph)).c]
+ToneIn(N, w, ph) == Strict([n \in 1..N |-> CosSin(RAdd(RQ(w * (n - 1), N), ph)).c])
 ToneOut(N, w, ph, m) ==
   LET rot == RQ((4 * w - N) * 2 * m, 4 * N)
   IN IF 0 < w /\ 2 * w < N THEN CExp(RAdd(rot, ph)) ELSE CMulReal(CExp(rot), CosSin(ph).c)
-ToneClause(N, w, ph) ==
-  LET y == R2C(ToneIn(N, w, ph))
-  IN \A m \in 0..(Len(y) - 1) : CClose(y[m + 1], ToneOut(N, w, ph, m), MulInt(Tol, 4 * N))
+ToneRel(N, w, ph, y) == \A m \in 0..(Len(y) - 1) : CClose(y[m + 1], ToneOut(N, w, ph, m), MulInt(Tol, 4 * N))
 \* dtype by input width, complex refused
 DtypeClause ==
   /\ \A d \in RealDtypes : Outcome(d) = (IF d = "float32" THEN "complex64" ELSE "complex128")
@@ -119,10 +131,11 @@ DtypeClause ==
 \* converting axis 1 of its transpose
 Transpose2(shape, flat) ==
   [shape |-> <<shape[2], shape[1]>>,
-   flat |-> [p \in 1..(shape[1] * shape[2]) |-> flat[1 + ((p - 1) % shape[1]) * shape[2] + (p - 1) \div shape[1]]]]
-AxisClause(shape, flat) ==
-  Len(shape) = 2 =>
-    LET t == Transpose2(shape, flat)
-        r1 == R2CAxis(t.shape, t.flat, 1)
-    IN R2CAxis(shape, flat, 2) = Transpose2(r1.shape, r1.flat)
+   flat |-> Strict([p \in 1..(shape[1] * shape[2]) |->
+                      flat[1 + ((p - 1) % shape[1]) * shape[2] + (p - 1) \div shape[1]]])]
+AxisRel(shape, flat, r2) ==       \* r2 = R2CAxis(shape, flat, 2)
+  LET t == Transpose2(shape, flat)
+      r1 == R2CAxis(t.shape, t.flat, 1)
+      b == Transpose2(r1.shape, r1.flat)
+  IN r2.shape = b.shape /\ r2.flat = b.flat
 =============================================================================
